@@ -47,7 +47,9 @@ def unit_align(axes, tol, method):
     import numpy as np
     from glotaran.optimization.data_provider import AlignDatasetError, DataProviderLinked
     p = DataProviderLinked.__new__(DataProviderLinked)
-    p._global_axes = {f"d{i}": np.array(ax, dtype=float) / 2 for i, ax in enumerate(axes)}
+    # a dataset whose points all lie on integer coordinates keeps an integer-typed axis (as loaded data often have)
+    p._global_axes = {f"d{i}": (np.array([a // 2 for a in ax], dtype=int) if all(a % 2 == 0 for a in ax) else np.array(ax, dtype=float) / 2)
+                      for i, ax in enumerate(axes)}
     sch = SimpleNamespace(clp_link_tolerance=tol / 2, clp_link_method=method)
     try:
         res = p.create_aligned_global_axes(sch)
